@@ -5,8 +5,11 @@ prop("C07", pkg="c07", vlimit_gb=16, fuzz=[("FuzzProtoDecode", 90)],
           "/ value varints re-encoded in 10 and 11 bytes, the wire type set to each of the 7 other values, the field number set to 0 and 2^29; 8 single-bit flips; 4 random byte "
           "strings (3 free, 1 after a valid prefix); and, at up to 40 field boundaries (top level and inside embedded messages and map entries) x wire types 0, 1, 2, 5, the "
           "insertion of one or two well-formed fields whose numbers the message level does not declare (enclosing lengths recomputed). A second sub-check feeds rapid-generated "
-          "byte strings (0..64 bytes) to generated target types. Thorough tier only: a native Go fuzzing campaign FuzzProtoDecode (90 s, 16 workers, coverage-guided, not "
-          "seed-reproducible - the saved input is the reproducible unit) over (bytes <= 4 KiB, selector of 29 static target types: all scalar kinds, zigzag/fixed tags and boundary "
+          "byte strings (0..64 bytes) to generated target types. A third sub-check (LongInputs, 9 cases per shard) decodes long WELL-FORMED inputs - 10^4, 10^5 or 3x10^5 (+0..999) "
+          "occurrences of field 1 as repeated varint / uint64 / bool / double / string / bytes / message / pointer-to-message (one tagged value per element: the library has no packed "
+          "encoding) or as map<int32,int32> / map<string,string> entries with distinct keys - into the matching target, after a forced GC, and bounds the runtime.MemStats.TotalAlloc "
+          "delta of that single Unmarshal by 64 x len(input) + 4 MiB (the unchanged library measures 1x..10x). Thorough tier only: a native Go fuzzing campaign FuzzProtoDecode (90 s, 16 workers, coverage-guided, not "
+          "seed-reproducible - the saved input is the reproducible unit) over (bytes <= 4 KiB, selector of 32 static target types: all scalar kinds, zigzag/fixed tags and boundary "
           "field numbers, repeated fields, maps, nested / pointer-to messages, proto2-style optional scalars, byte arrays, Message / custom implementers as fields, behind pointers, "
           "repeated and as map values, recursive corpus types, top-level implementers and scalars, an inlined pointer chain, implementers / corpus structs behind 1..3 pointers at top level and as fields), seeded with valid encodings, truncations and hostile "
           "constants (10/11-byte varints, lengths 2^31 / 2^63, field numbers 0 / 2^29, wire types 3/4/6/7); its oracle is the same checkCase on the raw bytes plus up to six "
@@ -18,7 +21,7 @@ prop("C07", pkg="c07", vlimit_gb=16, fuzz=[("FuzzProtoDecode", 90)],
      technique="property-based testing (rapid) of types/values x enumeration of cut points, structured wire mutations and unknown-field insertions; protowire as the reference "
                "field walker; runtime.MemStats.TotalAlloc for the allocation bound; journal-supervised shards under a 16 GiB address-space limit; native go fuzzing (go test -fuzz) with the same oracle in the thorough tier",
      level_text="Exploration: on every derived input Unmarshal, Scan/Parse and the RawValue accessors returned without panic or fatal error; no input of <= 4 KiB made the decoders "
-                "allocate more than 64 MiB; every insertion of well-formed undeclared fields decoded to the same value as the original encoding; Scan reported exactly the "
+                "allocate more than 64 MiB, and no long well-formed repeated field or map (up to 3x10^5 elements, 0.02..4.5 MB) made Unmarshal allocate more than 64 x its length + 4 MiB; every insertion of well-formed undeclared fields decoded to the same value as the original encoding; Scan reported exactly the "
                 "(number, wire type, payload, value) list of a protowire walk and erred exactly when that walk erred (inputs containing group wire types excluded).",
      level_note="Exhaustive over the prefixes of each sampled encoding, sampled elsewhere. Trusted base: harness/pgen (builder, wire walker, comparer), protowire, the Go toolchain. "
                 "The thorough tier adds the native fuzzing campaign FuzzProtoDecode (time-boxed, not seed-reproducible). The four defect classes this check found (KF-C07-001 repaired by 59a4758, -002 by f520591, "
